@@ -162,6 +162,7 @@ class SynthWorld:
         except SimStepCap:
             res.error = "step-cap"
             self.ctx.stat("step_cap:" + res.kind)
+            self.ctx.stat(f"step_cap_by_config:{res.kind}:{self.rep_kind}:{self.decider_kind if self.rep_kind in ('tree', 'ge', 'sge') else '-'}")
         except KeyboardInterrupt:
             raise
         except RecursionError as e:
